@@ -2,10 +2,11 @@
 from kanirun import H
 
 FACADE = True
-FUNCS = ["service::timeout::Timeout::call", "service::timeout::Timeout::poll_ready", "service::timeout::future::TimeoutFuture::new", "service::timeout::future::TimeoutFuture::poll"]
+FUNCS = ["(mirsym) client::pool::Pool::checkout, <Checkout as Future>::poll, <Checkout as PinnedDrop>::drop, Checkout::as_delayed, PoolInner::cancel_connection", "service::timeout::Timeout::call", "service::timeout::Timeout::poll_ready", "service::timeout::future::TimeoutFuture::new", "service::timeout::future::TimeoutFuture::poll"]
 BOUNDS = ("up to 4 polls at arbitrary non-decreasing virtual instants; issue instant t0 <= 1e6 ns, duration <= 1000 ns (keeps Duration construction division-free), "
           "poll instants <= 2e6 ns, inner completion instant any u64 or never, inner result Ok/Err symbolic; unwind 6")
-OUTSIDE = ("the pool still serving the origin after a timed-out pooled request (needs Checkout/PinnedDrop under a schedule: see C03 in not_applicable); "
+OUTSIDE = ("pool clean-up after expiry only for the stages in which the dropped future is a Checkout (waiting for its own or another request's dial: E2 obligation below); "
+           "expiry while handshaking / sending / awaiting the response happens inside hyper's futures; "
            "tokio's real timer wheel waking the task at the deadline (the facade's Sleep is Ready iff NOW >= deadline)")
 ASSUMPTIONS = ["tokio::time::sleep modelled by the facade crate: deadline = now + duration, Ready iff now >= deadline",
                "the runtime polls the future no later than the instant its timer fires (per-poll contract => by-deadline resolution)"]
@@ -19,3 +20,10 @@ def harnesses(tier, seed):
                     tier="quick" if n <= 3 else "thorough", desc={"polls": n, "instants": "symbolic non-decreasing", "duration_ns": "symbolic <= 1000"}, funcs=FUNCS))
     hs.append(H(name="c19_timeout_poll_ready", module="timeout", call="timeout_poll_ready()", unwind=3, family="timeout_poll_ready", nontrivial=False, funcs=FUNCS[1:2]))
     return hs
+
+
+def extra(tier, seed, log):
+    import mirrun
+    res, table = mirrun.run("C19", tier, seed, log)
+    extra.model_table = table
+    return res
